@@ -129,7 +129,17 @@ impl Statement {
             Self::Block(block) => return block.to_indented_string(interner, indentation),
             Self::Var(var) => var.to_interned_string(interner),
             Self::Empty => return ";".to_owned(),
-            Self::Expression(expr) => expr.to_indented_string(interner, indentation),
+            Self::Expression(expr) => {
+                let s = expr.to_indented_string(interner, indentation);
+                // The parser drops the parentheses around assignment and update targets
+                // (`({}.x) = 1;`), so the printed statement could start with `{`, `function`,
+                // `class` or `let [`, which an expression statement must not.
+                if starts_like_declaration(expr) {
+                    format!("({s})")
+                } else {
+                    s
+                }
+            }
             Self::If(if_smt) => return if_smt.to_indented_string(interner, indentation),
             Self::DoWhileLoop(do_while) => do_while.to_indented_string(interner, indentation),
             Self::WhileLoop(while_loop) => {
@@ -173,6 +183,81 @@ impl Statement {
                 LabelledItem::Statement(stmt) => stmt.is_labelled_function(),
             },
             _ => false,
+        }
+    }
+}
+
+/// Whether the printed form of `expr` starts with a token that an `ExpressionStatement` must not
+/// start with: the leftmost operand (in printing order) is an unparenthesized object literal,
+/// function or class expression, or `let[`.
+fn starts_like_declaration(expr: &Expression) -> bool {
+    use crate::expression::{
+        access::{PropertyAccess, PropertyAccessField},
+        operator::{
+            assign::AssignTarget,
+            update::{UpdateOp, UpdateTarget},
+        },
+    };
+    use boa_interner::Sym;
+
+    fn access(access: &PropertyAccess) -> Option<&Expression> {
+        match access {
+            PropertyAccess::Simple(a) => Some(a.target()),
+            PropertyAccess::Private(a) => Some(a.target()),
+            PropertyAccess::Super(_) => None,
+        }
+    }
+
+    let mut current = expr;
+    loop {
+        let next = match current {
+            Expression::ObjectLiteral(_)
+            | Expression::FunctionExpression(_)
+            | Expression::GeneratorExpression(_)
+            | Expression::AsyncFunctionExpression(_)
+            | Expression::AsyncGeneratorExpression(_)
+            | Expression::ClassExpression(_) => return true,
+            Expression::Binary(b) => Some(b.lhs()),
+            Expression::Conditional(c) => Some(c.condition()),
+            Expression::Call(c) => Some(c.function()),
+            Expression::TaggedTemplate(t) => Some(t.tag()),
+            Expression::Optional(o) => Some(o.target()),
+            Expression::PropertyAccess(a) => {
+                if let PropertyAccess::Simple(s) = a
+                    && let Expression::Identifier(id) = s.target()
+                    && id.sym() == Sym::LET
+                    && matches!(s.field(), PropertyAccessField::Expr(_))
+                {
+                    return true;
+                }
+                access(a)
+            }
+            Expression::Assign(a) => match a.lhs() {
+                AssignTarget::Access(acc) => {
+                    if let PropertyAccess::Simple(s) = acc
+                        && let Expression::Identifier(id) = s.target()
+                        && id.sym() == Sym::LET
+                        && matches!(s.field(), PropertyAccessField::Expr(_))
+                    {
+                        return true;
+                    }
+                    access(acc)
+                }
+                AssignTarget::Pattern(_) => return true,
+                AssignTarget::Identifier(_) => None,
+            },
+            Expression::Update(u) => match (u.op(), u.target()) {
+                (
+                    UpdateOp::IncrementPost | UpdateOp::DecrementPost,
+                    UpdateTarget::PropertyAccess(acc),
+                ) => access(acc),
+                _ => None,
+            },
+            _ => None,
+        };
+        match next {
+            Some(e) => current = e,
+            None => return false,
         }
     }
 }
